@@ -2,8 +2,8 @@
    Everything is proved for an arbitrary hash function H with 32-byte output and then instantiated
    with the executable SHA-256 of Base/Sha256.v. *)
 From Coq Require Import NArith ZArith List.
-From PTQ Require Import Base.Result Base.Bytes Base.Bits Base.Sha256 Model.Cell Spec.CellRepr Model.Inst
-  Proofs.CellOrd.
+From PTQ Require Import Base.Result Base.Bytes Base.Bits Base.Sha256 Model.Cell Spec.CellRepr Spec.CellWf Model.Inst
+  Proofs.CellOrd Spec.MerkleProof Proofs.HashInjective.
 Import ListNotations.
 Local Open Scope N_scope.
 
@@ -59,3 +59,61 @@ Example C01_example :
   let t := Cell (-1) (repeat true 1023) [Cell (-1) [] []; Cell (-1) [true;false;true;true;false] [Cell (-1) [] []]] in
   wf_ord t = true /\ s_depth t = 2 /\ rmap k_hash (build sha256 t) = Ok (s_hash sha256 t).
 Proof. vm_compute. repeat split; reflexivity. Qed.
+
+(* ---- structural reading: equal hashes mean equal trees, unless SHA-256 collides ---- *)
+(* [collision sha256] : exists m1 m2, m1 <> m2 /\ sha256 m1 = sha256 m2 (Spec/MerkleProof.v) *)
+Theorem C01_equal_hash_equal_cell : forall c1 c2, wf_ord c1 = true -> wf_ord c2 = true ->
+  s_hash sha256 c1 = s_hash sha256 c2 -> c1 = c2 \/ collision sha256.
+Proof. exact (ord_hash_injective sha256 sha256_len). Qed.
+Print Assumptions C01_equal_hash_equal_cell.
+
+(* the same on constructed cells: equal Cell.hash of two built trees *)
+Theorem C01_equal_hash_equal_cell_built : forall c1 c2 k1 k2, wf_ord c1 = true -> wf_ord c2 = true ->
+  build sha256 c1 = Ok k1 -> build sha256 c2 = Ok k2 ->
+  k_hash k1 = k_hash k2 -> c1 = c2 \/ collision sha256.
+Proof. exact (build_hash_injective sha256 sha256_len). Qed.
+Print Assumptions C01_equal_hash_equal_cell_built.
+
+(* __eq__ in both directions, read on the trees the two cells were built from *)
+Theorem C01_equal_hash_equal_cell_eq : forall c1 c2 k1 k2, wf_ord c1 = true -> wf_ord c2 = true ->
+  build sha256 c1 = Ok k1 -> build sha256 c2 = Ok k2 ->
+  (c1 = c2 -> cell_eqb k1 k2 = true) /\ (cell_eqb k1 k2 = true -> c1 = c2 \/ collision sha256).
+Proof. exact (build_eqb_structural sha256 sha256_len). Qed.
+Print Assumptions C01_equal_hash_equal_cell_eq.
+
+(* without a collision the two readings of "equal" coincide *)
+Theorem C01_equal_hash_iff_equal_cell : forall c1 c2, wf_ord c1 = true -> wf_ord c2 = true ->
+  ~ collision sha256 -> (s_hash sha256 c1 = s_hash sha256 c2 <-> c1 = c2).
+Proof. exact (ord_hash_iff sha256 sha256_len). Qed.
+Print Assumptions C01_equal_hash_iff_equal_cell.
+
+(* all cell types (ordinary, pruned branch, library, Merkle proof / update), at the top level 3:
+   specification hash, and Cell.hash of two built trees *)
+Theorem C01_equal_hash_equal_cell_exotic : forall c1 c2 l, wf_exotic c1 = true -> wf_exotic c2 = true ->
+  (3 <= l)%nat -> s_hash_at sha256 c1 l = s_hash_at sha256 c2 l -> c1 = c2 \/ collision sha256.
+Proof. exact (exotic_hash_injective sha256 sha256_len). Qed.
+Print Assumptions C01_equal_hash_equal_cell_exotic.
+
+Theorem C01_equal_hash_equal_cell_exotic_built : forall c1 c2 k1 k2,
+  wf_exotic c1 = true -> depth_okb sha256 c1 = true -> wf_exotic c2 = true -> depth_okb sha256 c2 = true ->
+  build sha256 c1 = Ok k1 -> build sha256 c2 = Ok k2 ->
+  k_hash k1 = k_hash k2 -> c1 = c2 \/ collision sha256.
+Proof. exact (exotic_build_khash_injective sha256 sha256_len). Qed.
+Print Assumptions C01_equal_hash_equal_cell_exotic_built.
+
+(* non-vacuity: a and b are the same tree written in two ways (equal, equal hashes); c differs from a
+   in one data bit of the child and has a different hash *)
+Example C01_equal_hash_example :
+  let a := Cell (-1) (to_bits 8 165) [Cell (-1) (repeat true 3) []] in
+  let b := Cell (-1) [true;false;true;false;false;true;false;true] [Cell (-1) [true;true;true] []] in
+  let c := Cell (-1) (to_bits 8 165) [Cell (-1) [true;true;false] []] in
+  wf_ord a = true /\ wf_ord b = true /\ wf_ord c = true /\ a = b /\ a <> c /\
+  match build sha256 a, build sha256 b, build sha256 c with
+  | Ok ka, Ok kb, Ok kc =>
+      cell_eqb ka kb = true /\ k_hash ka = k_hash kb /\ cell_eqb ka kc = false /\ k_hash ka <> k_hash kc
+  | _, _, _ => False
+  end.
+Proof.
+  vm_compute.
+  repeat match goal with |- _ /\ _ => split end; try reflexivity; intro E; discriminate E.
+Qed.
